@@ -146,19 +146,25 @@ class ReadLoop:
 
     def run(self, interp, e, rng, env):
         ctx = interp.ctx
-        it = interp.deref(env.get('iterator'))
-        ln = interp.zint(env.get('len'))
+        # the variables are found by role: the one iterator in scope, the one vector being filled, the range's upper bound
+        its = env.names_where(lambda v: isinstance(interp.deref(v), RIter))
+        vecs = env.names_where(lambda v: isinstance(interp.deref(v), UVec) or (isinstance(interp.deref(v), SV) and interp.deref(v).kind == 'idl'))
+        if len(its) != 1 or len(vecs) != 1:
+            raise Unsupported(f'read loop: expected one iterator and one vector in scope, found {its} / {vecs}')
+        vname = vecs[0]
+        it = interp.deref(env.get(its[0]))
+        ln = interp.zint(rng[2])
         r0 = it.rest.t
-        v0 = interp.as_idl(env.get('vec'))
+        v0 = interp.as_idl(env.get(vname))
         whole = sm.read_n(ln, r0, v0)
         self.whole = whole
         lo, hi = interp.zint(rng[1]), interp.zint(rng[2])
-        ctx.oblige('loop-entry:range is 0..len', z3.And(lo == 0, hi == ln), kind='loop')
+        ctx.oblige('loop-entry:range starts at 0', lo == 0, kind='loop')
         which = ctx.choose(2, 'for: arbitrary iteration / exit')
         k = ctx.fresh('int', 'k').t
         vec = ctx.fresh('idl', 'vec')
         rest = ctx.fresh('idl', 'rest')
-        env.set_existing('vec', vec)
+        env.set_existing(vname, vec)
         it.rest = rest
         if which == 0:
             ctx.assume(z3.And(k >= 0, k < ln, whole == sm.read_n(ln - k, rest.t, vec.t)))
@@ -170,7 +176,7 @@ class ReadLoop:
             except SymRaise:
                 ctx.oblige('loop-step:panics only if the input is too short', RDR.is_('rfail', whole), kind='loop')
                 raise
-            ctx.oblige('loop-step:invariant', whole == sm.read_n(ln - (k + 1), it.rest.t, interp.as_idl(env.get('vec'))), kind='loop')
+            ctx.oblige('loop-step:invariant', whole == sm.read_n(ln - (k + 1), it.rest.t, interp.as_idl(env.get(vname))), kind='loop')
             raise StepDone()
         ctx.assume(z3.And(k >= 0, z3.Or(k == ln, z3.And(ln < 0, k == 0)), whole == sm.read_n(ln - k, rest.t, vec.t)))
         ctx.check_feasible()
